@@ -228,3 +228,28 @@ func genBurst(rng *vlib.Rand, id int) Scenario {
 	sc.Writers = []WriterSpec{w0}
 	return sc
 }
+
+// genFirstUse: class "firstuse" - the very first uses of a freshly registered
+// database are 3-8 barrier-released concurrent Subscribe calls (nothing has started
+// the database before); then writes, concurrent cancels and more writes as in the
+// burst class. Every subscription whose Subscribe returned must receive.
+func genFirstUse(rng *vlib.Rand, id int) Scenario {
+	sc := genBurst(rng, id)
+	sc.Class = "firstuse"
+	sc.Backend, sc.Shadow = "hashmap", rng.Bool()
+	for i := range sc.Writers[0].Ops {
+		sc.Writers[0].Ops[i].Kind = "put"
+	}
+	bs := sc.Burst
+	// the initial subscriptions join the first concurrent round
+	first := &bs.Rounds[0]
+	first.Subscribe = append(append([]int(nil), bs.Initial...), first.Subscribe...)
+	if len(first.Subscribe) > 8 {
+		// keep the rest for a later, ordinary round
+		rest := first.Subscribe[8:]
+		first.Subscribe = first.Subscribe[:8]
+		bs.Rounds[1].Subscribe = append(rest, bs.Rounds[1].Subscribe...)
+	}
+	bs.Initial = nil
+	return sc
+}
